@@ -1090,6 +1090,10 @@ class Server:
         self.service_records = {}  # Service records maps, by record handle
         self.channel = None
         self.current_response = None  # Current response data, used for continuations
+        # Response data of the clients other than the one being served, by channel
+        self.pending_responses: dict[
+            l2cap.ClassicChannel, bytes | tuple[int, list[int]]
+        ] = {}
 
     def register(self, l2cap_channel_manager: l2cap.ChannelManager) -> None:
         l2cap_channel_manager.create_classic_server(
@@ -1119,7 +1123,20 @@ class Server:
 
     def on_connection(self, channel):
         self.channel = channel
-        self.channel.sink = self.on_pdu
+        channel.sink = lambda pdu: self.on_channel_pdu(channel, pdu)
+        channel.once(
+            channel.EVENT_CLOSE, lambda: self.pending_responses.pop(channel, None)
+        )
+
+    def on_channel_pdu(self, channel, pdu):
+        # Requests are handled one at a time: serve this client on its own channel,
+        # with its own continuation state
+        if self.channel is not channel:
+            if self.channel is not None and self.current_response is not None:
+                self.pending_responses[self.channel] = self.current_response
+            self.channel = channel
+            self.current_response = self.pending_responses.pop(channel, None)
+        self.on_pdu(pdu)
 
     def on_pdu(self, pdu):
         try:
